@@ -154,6 +154,8 @@ def run_property(prop, tier='quick', seed=0, budget=None, only=None, jobs=None, 
     loader.install(symbolic=False)
     mod = importlib.import_module('vf.props.' + prop)
     obs = mod.obligations(tier, seed)
+    _seen = set()
+    obs = [o for o in obs if not (o['id'] in _seen or _seen.add(o['id']))]
     if only:
         obs = [o for o in obs if only in o['id'] or fnmatch.fnmatch(o['id'], only)]
     for o in obs:
